@@ -1,10 +1,458 @@
-//! C16 — (stub; filled in during the build phase)
+//! C16 — doc comments keep their text, tags and links.
 
 use super::PropMeta;
 use crate::engine::*;
+use crate::model::ast::*;
+use crate::model::doc;
+use crate::model::print::*;
+use crate::model::resolve::*;
+use crate::model::run::*;
+use crate::model::tree::*;
+use crate::util::*;
+use serde_json::{json, Value};
 
-pub fn meta(_m: &mut PropMeta) {}
+pub fn meta(m: &mut PropMeta) {
+    m.rule = "model comments: all sequences of up to 3 (quick) / 4 (thorough) overview lines over the line alphabet {text, link at start / middle / end, blank, whitespace-only} x indentation {none, space, two spaces, tab, U+3000, NBSP} (mixed-width indentation included); block tags @param x / @returns / @returns x / @see T with inline message present / absent / link and 0..2 continuation lines, in all orders of up to 3 tags, after 0..1 overview lines; every comment form in every commentable position (struct, field, interface, operation, enum, enumerator, enumerator field, custom, alias); link and @see targets of every kind and scope distance (own member, sibling, member paths, enclosing / outer module, global '::', other file, parameter, primitive, module, missing) from every position; the malformed catalogue (unknown tag, '@' alone, missing '}', inline @param, block @link, stray symbol, text after @see, missing identifier), each alone and next to a healthy sibling comment. Oracle: reference reading of the raw lines written from the statement (common indentation in characters removed, line breaks kept, tags with identifiers in order, links bound by the outward scope search starting at the documented element, aliases not flattened): the whole observed AST including every comment equals the model; malformed => the comment is dropped with a MalformedDocComment warning; ill-fitting tags => IncorrectDocComment warning; unresolvable links => BrokenDocLink warning; never an Error; documented element and siblings still present. non-trivial = the comment has an indented line, a link or a tag; distinct = distinct rendered programs.";
+    m.explanation = "bounded-exhaustive comment-shape x position x link-target enumeration against a reference comment reader";
+    m.quick_bound = "overview <= 3 lines; <= 3 block tags; 22 link targets x 9 positions x {link, see}";
+    m.thorough_bound = "overview <= 4 lines; <= 3 block tags; same link product";
+}
 
-pub fn families(_tier: &str) -> Vec<Box<dyn Family>> {
-    vec![]
+pub const N_POSITIONS: usize = 9;
+
+/// The universe every documented element lives in; the element at `pos` carries `lines`.
+pub fn place_doc(pos: usize, lines: &[String], sibling_doc: bool) -> Program {
+    let d = |c: MCommon| -> MCommon {
+        let mut c = c;
+        c.doc.lines = lines.to_vec();
+        c
+    };
+    let i32t = || MType::prim("int32");
+    let mut outer = MFile::module("Outer");
+    outer.defs.push(st("OS", vec![MField::new("of", i32t())]));
+    let mut z = MFile::module("Z");
+    z.defs.push(st("ZS", vec![]));
+    let mut f = MFile::module("Outer::Inner");
+    // fixed link targets
+    f.defs.push(st("IS", vec![MField::new("f", i32t())]));
+    f.defs.push(en("IE", None, vec![MEnumerator { c: MCommon::new("EA"), fields: Some(vec![MField::new("ef", i32t())]), value: None }, enumerator("EB")]));
+    f.defs.push(iface("II", vec![], vec![op("iop", vec![MParam::new("ip", i32t())], MRet::Single { tag: None, stream: false, ty: i32t() })]));
+    f.defs.push(custom("IC"));
+    f.defs.push(alias("IA", i32t()));
+    // the documented element
+    let mut s = MStruct { c: MCommon::new("DS"), compact: false, fields: vec![MField::new("m", i32t()), MField::new("n", MType::prim("string"))] };
+    let mut o = op("dop", vec![MParam::new("a", i32t()), MParam::new("b", i32t())], MRet::Tuple(vec![MParam::new("x", i32t()), MParam::new("y", i32t())]));
+    let mut o1 = op("single", vec![MParam::new("a", i32t())], MRet::Single { tag: None, stream: false, ty: i32t() });
+    let mut o0 = op("noret", vec![], MRet::None);
+    let mut it = MInterface { c: MCommon::new("DI"), bases: vec![], ops: vec![] };
+    let mut e = MEnum { c: MCommon::new("DE"), compact: false, unchecked: false, underlying: None, enumerators: vec![MEnumerator { c: MCommon::new("DA"), fields: Some(vec![MField::new("df", i32t())]), value: None }, enumerator("DB")] };
+    let mut cu = MCustom { c: MCommon::new("DC") };
+    let mut al = MAlias { c: MCommon::new("DT"), ty: i32t() };
+    match pos {
+        0 => s.c = d(s.c),
+        1 => s.fields[0].c = d(s.fields[0].c.clone()),
+        2 => it.c = d(it.c),
+        3 => o.c = d(o.c),
+        4 => e.c = d(e.c),
+        5 => e.enumerators[0].c = d(e.enumerators[0].c.clone()),
+        6 => e.enumerators[0].fields.as_mut().unwrap()[0].c = d(e.enumerators[0].fields.as_ref().unwrap()[0].c.clone()),
+        7 => cu.c = d(cu.c),
+        8 => al.c = d(al.c),
+        9 => o1.c = d(o1.c),
+        10 => o0.c = d(o0.c),
+        _ => unreachable!(),
+    }
+    if sibling_doc {
+        // a healthy comment on a sibling: must stay intact whatever happens to the other one
+        s.fields[1].c.doc.lines = vec![" Healthy {@link IS}.".into(), " Second.".into()];
+        e.enumerators[1].c.doc.lines = vec![" Healthy.".into()];
+        o1.c.doc.lines = if pos == 9 { o1.c.doc.lines } else { vec![" Healthy.".into(), " @param a: the a".into()] };
+    }
+    it.ops = vec![o, o1, o0];
+    f.defs.push(MDef::Struct(s));
+    f.defs.push(MDef::Interface(it));
+    f.defs.push(MDef::Enum(e));
+    f.defs.push(MDef::Custom(cu));
+    f.defs.push(MDef::Alias(al));
+    vec![f, outer, z]
+}
+
+#[derive(Default, Debug)]
+struct LintExpect {
+    malformed: usize,
+    broken: usize,
+    incorrect: usize,
+}
+
+fn expect_for(kind: &str, params: &[String], ret: Option<&MRet>, lines: &[String], owner: &str, table: &Table, e: &mut LintExpect) {
+    if lines.is_empty() {
+        return;
+    }
+    match doc::ref_parse(lines) {
+        Err(()) => e.malformed += 1,
+        Ok(d) => {
+            let mut links: Vec<&String> = vec![];
+            if let Some(o) = &d.overview {
+                links.extend(o.links.iter());
+            }
+            for (_, m) in &d.params {
+                links.extend(m.links.iter());
+            }
+            for (_, m) in &d.returns {
+                links.extend(m.links.iter());
+            }
+            links.extend(d.see.iter());
+            for l in links {
+                if doc::expected_binding(table, l, owner).starts_with("broken:") {
+                    e.broken += 1;
+                }
+            }
+            match kind {
+                "operation" => {
+                    for (id, _) in &d.params {
+                        if !params.contains(id) {
+                            e.incorrect += 1;
+                        }
+                    }
+                    match ret.unwrap() {
+                        MRet::None => e.incorrect += d.returns.len(),
+                        MRet::Single { .. } => e.incorrect += d.returns.iter().filter(|(id, _)| id.is_some()).count(),
+                        MRet::Tuple(ps) => e.incorrect += d.returns.iter().filter(|(id, _)| id.as_ref().map_or(false, |i| !ps.iter().any(|p| &p.name.name == i))).count(),
+                    }
+                }
+                "enumerator" => e.incorrect += d.returns.len(), // @param on an enumerator describes its fields
+                _ => e.incorrect += d.params.len() + d.returns.len(),
+            }
+        }
+    }
+}
+
+fn lint_expectations(program: &Program) -> LintExpect {
+    let table = Table::build(program);
+    let mut e = LintExpect::default();
+    for f in program {
+        let scope = f.module_name();
+        for d in &f.defs {
+            let dn = format!("{scope}::{}", d.common().name.name);
+            match d {
+                MDef::Struct(s) => {
+                    expect_for("struct", &[], None, &s.c.doc.lines, &dn, &table, &mut e);
+                    for fl in &s.fields {
+                        expect_for("field", &[], None, &fl.c.doc.lines, &format!("{dn}::{}", fl.c.name.name), &table, &mut e);
+                    }
+                }
+                MDef::Interface(i) => {
+                    expect_for("interface", &[], None, &i.c.doc.lines, &dn, &table, &mut e);
+                    for o in &i.ops {
+                        let ps: Vec<String> = o.params.iter().map(|p| p.name.name.clone()).collect();
+                        expect_for("operation", &ps, Some(&o.ret), &o.c.doc.lines, &format!("{dn}::{}", o.c.name.name), &table, &mut e);
+                    }
+                }
+                MDef::Enum(en) => {
+                    expect_for("enum", &[], None, &en.c.doc.lines, &dn, &table, &mut e);
+                    for x in &en.enumerators {
+                        let xn = format!("{dn}::{}", x.c.name.name);
+                        expect_for("enumerator", &[], None, &x.c.doc.lines, &xn, &table, &mut e);
+                        for fl in x.fields.iter().flatten() {
+                            expect_for("field", &[], None, &fl.c.doc.lines, &format!("{xn}::{}", fl.c.name.name), &table, &mut e);
+                        }
+                    }
+                }
+                MDef::Custom(c) => expect_for("custom", &[], None, &c.c.doc.lines, &dn, &table, &mut e),
+                MDef::Alias(a) => expect_for("alias", &[], None, &a.c.doc.lines, &dn, &table, &mut e),
+            }
+        }
+    }
+    e
+}
+
+/// Compile, compare the whole AST with the model, compare lints. Returns the outcome class.
+pub fn check_doc_program(program: &Program, layout: &Layout, fam: &str, out: &mut CaseOut, skip_enumerator_param: bool) -> String {
+    out.steps += 1;
+    let rendered = render_program(program, layout);
+    let texts: Vec<String> = rendered.iter().map(|r| r.text.clone()).collect();
+    let input = || texts[0].clone();
+    let expected: Vec<Node> = rendered.iter().map(|r| r.tree.clone()).collect();
+    let exp = lint_expectations(program);
+    match compile_rendered(rendered, None) {
+        Err((loc, msg)) => {
+            out.violate(format!("c16/{fam}/panic@{loc}"), format!("panic at {loc}: {msg}\n--- input ---\n{}", input()));
+            "panic".into()
+        }
+        Ok(c) => {
+            if let Some(e) = c.errors().first() {
+                out.violate(format!("c16/{fam}/comment-caused-error/{}", e.code), format!("a doc comment must never cause an error, but: {} {}\n--- input ---\n{}", e.code, e.message, input()));
+                return format!("error:{}", e.code);
+            }
+            for (i, e) in expected.iter().enumerate() {
+                let Ok(o) = guarded(|| crate::model::observe::file(&c.files[i])) else {
+                    out.violate(format!("c16/{fam}/observer-panic"), format!("walking the AST panicked\n--- input ---\n{}", input()));
+                    continue;
+                };
+                if let Some(d) = diff(e, &o) {
+                    // classify: text / tag / link / lost element
+                    out.violate(format!("c16/{fam}/differs{}", d.path), format!("file {i}: at {}: {} expected {:?}, observed {:?}\n--- input ---\n{}", d.path_named, d.what, d.expected, d.observed, input()));
+                }
+            }
+            let count = |code: &str| c.diags.iter().filter(|d| d.code == code).count();
+            let (m, b, inc) = (count("MalformedDocComment"), count("BrokenDocLink"), count("IncorrectDocComment"));
+            if (exp.malformed > 0) != (m > 0) {
+                out.violate(format!("c16/{fam}/malformed-lint/{}", if m > 0 { "unexpected" } else { "missing" }), format!("expected {} malformed comment(s), {} MalformedDocComment warning(s) reported: {:?}\n--- input ---\n{}", exp.malformed, m, c.diags.iter().map(|d| &d.message).collect::<Vec<_>>(), input()));
+            }
+            if (exp.broken > 0) != (b > 0) {
+                out.violate(format!("c16/{fam}/broken-link-lint/{}", if b > 0 { "unexpected" } else { "missing" }), format!("expected {} unresolvable link(s), {} BrokenDocLink warning(s) reported: {:?}\n--- input ---\n{}", exp.broken, b, c.diags.iter().map(|d| &d.message).collect::<Vec<_>>(), input()));
+            }
+            if !skip_enumerator_param && (exp.incorrect > 0) != (inc > 0) {
+                out.violate(format!("c16/{fam}/incorrect-tag-lint/{}", if inc > 0 { "unexpected" } else { "missing" }), format!("expected {} ill-fitting tag(s), {} IncorrectDocComment warning(s) reported: {:?}\n--- input ---\n{}", exp.incorrect, inc, c.diags.iter().map(|d| &d.message).collect::<Vec<_>>(), input()));
+            }
+            for d in &c.diags {
+                if d.level != "warning" {
+                    out.violate(format!("c16/{fam}/lint-level/{}", d.level), format!("{} has level {}\n--- input ---\n{}", d.code, d.level, input()));
+                }
+            }
+            format!("m{}b{}i{}", m.min(2), b.min(2), inc.min(2))
+        }
+    }
+}
+
+// ---------------------------------------------------------------------------------------------------------------
+
+const INDENTS: [&str; 6] = ["", " ", "  ", "\t", "\u{3000}", "\u{a0}"];
+const CONTENTS: [&str; 4] = ["text here", "{@link IS} tail", "mid {@link IS::f} tail", "end {@link OS}"];
+
+fn line_alphabet() -> Vec<String> {
+    let mut v = vec![String::new(), "  ".to_string(), "\u{3000}".to_string()];
+    for i in INDENTS {
+        for c in CONTENTS {
+            v.push(format!("{i}{c}"));
+        }
+    }
+    v
+}
+
+/// All overview line sequences.
+pub struct Overviews {
+    pub max_lines: usize,
+    alphabet: Vec<String>,
+}
+impl Overviews {
+    pub fn new(max_lines: usize) -> Self {
+        Overviews { max_lines, alphabet: line_alphabet() }
+    }
+    fn lines(&self, idx: u64) -> Vec<String> {
+        let a = self.alphabet.len() as u64;
+        let mut i = idx;
+        let mut n = 1;
+        let mut size = a;
+        while i >= size {
+            i -= size;
+            n += 1;
+            size *= a;
+        }
+        let mut v = vec![];
+        for _ in 0..n {
+            v.push(self.alphabet[(i % a) as usize].clone());
+            i /= a;
+        }
+        v
+    }
+}
+impl Family for Overviews {
+    fn name(&self) -> String {
+        format!("overview-lines/all sequences of 1..{} lines over {} line forms (6 indentations x 4 contents, blank, whitespace-only), position rotates", self.max_lines, self.alphabet.len())
+    }
+    fn len(&self) -> u64 {
+        let a = self.alphabet.len() as u64;
+        (1..=self.max_lines as u32).map(|n| a.pow(n)).sum()
+    }
+    fn describe(&self, idx: u64) -> Value {
+        json!({"comment_lines": self.lines(idx), "position": idx % 9})
+    }
+    fn run(&self, idx: u64) -> CaseOut {
+        let lines = self.lines(idx);
+        let pos = (idx % 9) as usize;
+        let p = place_doc(pos, &lines, idx % 2 == 0);
+        let layout = Layout::uniform(if idx % 3 == 0 { Sep::Newline } else { Sep::Space }, Commas::None);
+        let mut out = CaseOut::new(hash_str(&format!("{lines:?}{pos}{}", idx % 6)));
+        out.steps = 0;
+        out.validated = 1;
+        out.nontrivial = lines.iter().any(|l| l.starts_with(char::is_whitespace) || l.contains('{'));
+        out.class = check_doc_program(&p, &layout, "overview", &mut out, false);
+        out
+    }
+}
+
+/// Block tags.
+pub struct Tags {
+    forms: Vec<Vec<String>>,
+}
+impl Tags {
+    pub fn new() -> Self {
+        // a tag block = head line + 0..2 continuation lines
+        let heads = ["@param a", "@param b", "@param zz", "@returns", "@returns x", "@returns zz", "@see IS", "@see Missing"];
+        let inlines = ["", ":", ": inline text", ":   padded {@link IE::EA} text", ":{@link IC}"];
+        let conts: Vec<Vec<&str>> = vec![vec![], vec!["   cont one"], vec!["     cont one", "   cont {@link OS} two"], vec!["", " after blank"]];
+        let mut blocks: Vec<Vec<String>> = vec![];
+        for h in heads {
+            for il in inlines {
+                for c in &conts {
+                    if h.starts_with("@see") && (!il.is_empty() || !c.is_empty()) {
+                        continue;
+                    }
+                    let mut b = vec![format!(" {h}{il}")];
+                    b.extend(c.iter().map(|s| s.to_string()));
+                    blocks.push(b);
+                }
+            }
+        }
+        // comments: optional overview line + 1..2 blocks (ordered pairs)
+        let mut forms = vec![];
+        for ov in [None, Some(" Overview {@link IS}.")] {
+            for a in &blocks {
+                let mut f: Vec<String> = ov.iter().map(|s| s.to_string()).collect();
+                f.extend(a.iter().cloned());
+                forms.push(f);
+            }
+        }
+        let reduced: Vec<&Vec<String>> = blocks.iter().step_by(3).collect();
+        for a in &reduced {
+            for b in &reduced {
+                let mut f = vec![" Overview.".to_string()];
+                f.extend(a.iter().cloned());
+                f.extend(b.iter().cloned());
+                forms.push(f);
+            }
+        }
+        // order within each kind of tag, and mixed orders of three tags
+        let t = |v: &[&str]| -> Vec<String> { v.iter().map(|s| s.to_string()).collect() };
+        forms.push(t(&[" @see IS", " @see IE"]));
+        forms.push(t(&[" @see IE", " @see IS", " @see IC"]));
+        forms.push(t(&[" @param b: the b", " @param a: the a"]));
+        forms.push(t(&[" @param a: the a", " @param b: the b"]));
+        forms.push(t(&[" @returns y: the y", " @returns x: the x"]));
+        forms.push(t(&[" @returns x: the x", " @returns y: the y"]));
+        let three = [" @param a: pa", " @returns x: rx", " @see IS"];
+        for perm in [[0, 1, 2], [0, 2, 1], [1, 0, 2], [1, 2, 0], [2, 0, 1], [2, 1, 0]] {
+            forms.push(perm.iter().map(|i| three[*i].to_string()).collect());
+        }
+        Tags { forms }
+    }
+}
+const TAG_POSITIONS: [usize; 11] = [0, 1, 2, 3, 4, 5, 6, 7, 8, 9, 10];
+impl Family for Tags {
+    fn name(&self) -> String {
+        format!("block-tags/{} comment forms (1-2 tag blocks with inline / continuation messages, with and without overview) x 11 positions (incl. operations returning a tuple, a single value, nothing)", self.forms.len())
+    }
+    fn len(&self) -> u64 {
+        (self.forms.len() * TAG_POSITIONS.len()) as u64
+    }
+    fn describe(&self, idx: u64) -> Value {
+        json!({"comment_lines": self.forms[(idx / 11) as usize], "position": idx % 11})
+    }
+    fn run(&self, idx: u64) -> CaseOut {
+        let lines = &self.forms[(idx / 11) as usize];
+        let pos = TAG_POSITIONS[(idx % 11) as usize];
+        let p = place_doc(pos, lines, idx % 2 == 1);
+        let mut out = CaseOut::new(hash_str(&format!("tags{lines:?}{pos}")));
+        out.steps = 0;
+        out.validated = 1;
+        out.nontrivial = true;
+        // @param on an enumerator: the statement does not say whether that fits (enumerators have fields)
+        let skip = pos == 5 && lines.iter().any(|l| l.trim_start().starts_with("@param"));
+        out.class = check_doc_program(&p, &Layout::uniform(Sep::Space, Commas::None), "tags", &mut out, skip);
+        out
+    }
+}
+
+/// Link targets of every kind and scope distance from every position.
+pub struct LinkTargets;
+const TARGETS: [&str; 26] = [
+    "IS", "IS::f", "IE", "IE::EA", "IE::EA::ef", "II", "II::iop", "II::iop::ip", "IC", "IA", "Inner::IS", "Outer::Inner::IS", "::Outer::Inner::IS", "OS", "Outer::OS", "::Outer::OS", "OS::of", "Outer", "Outer::Inner", "int32", "string",
+    "Missing", "Z::ZS", "::Z::ZS", "ZS", "::IS",
+];
+/// targets that are relative to the documented element itself
+const OWN: [&str; 6] = ["m", "a", "x", "df", "DA", "dop"];
+impl Family for LinkTargets {
+    fn name(&self) -> String {
+        "link-targets/32 written targets (every entity kind, member paths, every scope distance, global, other file, parameter, primitive, module, missing, own members) x 11 positions x {inline link, @see, link in @param message}".into()
+    }
+    fn len(&self) -> u64 {
+        (TARGETS.len() + OWN.len()) as u64 * 11 * 3
+    }
+    fn describe(&self, idx: u64) -> Value {
+        let (t, pos, how) = Self::decode(idx);
+        json!({"target": t, "position": pos, "how": how})
+    }
+    fn run(&self, idx: u64) -> CaseOut {
+        let (t, pos, how) = Self::decode(idx);
+        let lines: Vec<String> = match how {
+            0 => vec![format!(" See {{@link {t}}} for more.")],
+            1 => vec![" Overview.".into(), format!(" @see {t}")],
+            _ => vec![format!(" @param a: uses {{@link {t}}}")],
+        };
+        let p = place_doc(pos, &lines, false);
+        let mut out = CaseOut::new(hash_str(&format!("lt{t}{pos}{how}")));
+        out.steps = 0;
+        out.validated = 1;
+        out.nontrivial = true;
+        let skip = pos == 5 && how == 2;
+        out.class = check_doc_program(&p, &Layout::uniform(Sep::Space, Commas::None), "links", &mut out, skip);
+        out
+    }
+}
+impl LinkTargets {
+    fn decode(idx: u64) -> (&'static str, usize, u64) {
+        let how = idx % 3;
+        let pos = ((idx / 3) % 11) as usize;
+        let ti = (idx / 33) as usize;
+        let t = if ti < TARGETS.len() { TARGETS[ti] } else { OWN[ti - TARGETS.len()] };
+        (t, pos, how)
+    }
+}
+
+/// The malformed catalogue, alone and next to a healthy sibling comment.
+pub struct Malformed;
+const BAD: [&[&str]; 16] = [
+    &[" @foo bar"],
+    &[" @"],
+    &[" text {@link IS"],
+    &[" text {@param a}"],
+    &[" @link IS"],
+    &[" @param (a): x"],
+    &[" @see IS trailing"],
+    &[" @param : no identifier"],
+    &[" @see"],
+    &[" ok line", " {@link }"],
+    &[" @returns a b: two identifiers"],
+    &[" {@link IS::}"],
+    &[" @see IS", " continuation after see"],
+    &[" fine", " @param a: fine", " @unknown"],
+    &[" {@see IS}"],
+    &[" @param a: x {@link IS"],
+];
+impl Family for Malformed {
+    fn name(&self) -> String {
+        "malformed-catalogue/16 malformed forms x 11 positions x {alone, next to healthy sibling comments}".into()
+    }
+    fn len(&self) -> u64 {
+        BAD.len() as u64 * 11 * 2
+    }
+    fn describe(&self, idx: u64) -> Value {
+        json!({"comment_lines": BAD[(idx / 22) as usize], "position": (idx / 2) % 11, "healthy_siblings": idx % 2 == 1})
+    }
+    fn run(&self, idx: u64) -> CaseOut {
+        let lines: Vec<String> = BAD[(idx / 22) as usize].iter().map(|s| s.to_string()).collect();
+        let pos = ((idx / 2) % 11) as usize;
+        let p = place_doc(pos, &lines, idx % 2 == 1);
+        let mut out = CaseOut::new(hash_str(&format!("bad{idx}")));
+        out.steps = 0;
+        out.validated = 1;
+        out.nontrivial = true;
+        out.class = check_doc_program(&p, &Layout::uniform(Sep::Space, Commas::None), "malformed", &mut out, false);
+        out
+    }
+}
+
+pub fn families(tier: &str) -> Vec<Box<dyn Family>> {
+    vec![Box::new(Malformed), Box::new(LinkTargets), Box::new(Tags::new()), Box::new(Overviews::new(if tier == "quick" { 3 } else { 4 }))]
 }
